@@ -1105,7 +1105,7 @@ func (db *DB) handleMemTableFlush(mt *memTable, dropPrefixes [][]byte) error {
 	}
 	// We own a ref on tbl.
 	err = db.lc.addLevel0Table(tbl) // This will incrRef
-	verifFlushDone(tbl)
+	verifFlushDone(tbl)             // verif: observation point (no-op without the tag)
 	_ = tbl.DecrRef()               // Releases our ref.
 	return err
 }
